@@ -7,6 +7,16 @@ import subprocess
 VERIF = os.path.dirname(os.path.dirname(os.path.abspath(__file__)))
 
 CHECKS = {
+    "C01": dict(
+        technique="Coq proof: abstract-interpretation soundness of the CFG reachability abstraction (Cfg/Flow.v) w.r.t. an oracle-driven CPython control-flow semantics (Py/PySem.v), all constructs, unbounded; ties: pyscn dead ranges vs model per statement, PySem vs python3 traces, pyscn vs python3 directly",
+        text="Theorem C01_sound (no axioms): for every function body, oracle (condition values, raising calls, handler matches, swallowing context managers, iterator lengths) and fuel, a statement whose marker executes is never among the statements the model reports dead. Every run: generated modules using every construct of the quantifier are analysed by pyscn and executed by CPython under the same oracles; (1) no executed marker lies in a reported dead range (the property itself), (2) Flow.v's dead statements = lines covered by pyscn's ranges, (3) PySem.v traces = CPython traces.",
+        note="Flow.v is a hand-written abstraction of cfg_builder.go+reachability.go+dead_code.go (statement level: finding ranges are compared per statement line, block boundaries are not modelled); generators/async scheduling/exceptions raised by non-marker code are outside the semantics; tree-sitter and ast_builder.go are exercised end-to-end, not modelled.",
+        design="5 C01, 4.2, 4.5"),
+    "C19": dict(
+        technique="Coq proof of gate_exact (exit = 0 <-> gate_spec) over a model of cmd/pyscn/check.go:runCheck; constants and comparison operators regenerated from the Go AST; CLI correspondence on boundary projects x flag/config/cwd combinations",
+        text="Coq model of runCheck (selection, flag-else-config-else-10 threshold, severity gate, cycle limit, issueCount arithmetic, exit code) with gate_exact : exit = 0 <-> gate_spec proved for all inputs; clones_never_fail; printed lines = violations; monotonicity. Correspondence: generated boundary projects x flag/config/cwd combinations on the real `pyscn check`, against the spec, against `pyscn analyze --json`, and against the model.",
+        note="assumes complexities >= 1 and --max-cycles >= 0; the literal 'any analysis could not run' clause is refuted for the informational clone analysis (F27, open known finding); F16 and F28 repaired by fix: commits; mock-data findings and clone pairs are read from check's own output.",
+        design="5 C19"),
     "C15": dict(
         technique="Coq proof over an exact-rational model of domain/analyze.go + calculateSummary; constants regenerated from Go source; differential correspondence (vm_compute) against the tagged Go driver",
         text="Theorems (Props/C15.v, no axioms): score and category ranges, score = max 0 (100 - sum of penalties) with caps 20/20/20/20/20/16/12, grade table, monotonicity in every measured quantity (simultaneously), skipping analyses never lowers the score. The model is tied to the code by regenerated constants and by running CalculateHealthScore / calculateSummary and the model on boundary-lattice and random summaries every run.",
